@@ -1,6 +1,8 @@
 package vc
 
 import (
+	"sync/atomic"
+	"time"
 	"fmt"
 	"go/token"
 	"go/types"
@@ -30,6 +32,8 @@ type Obligation struct {
 	File    string
 	AllRes  []SolverResult
 	Axioms  []string
+	NoAxioms []string
+	Opaque   []string
 	FindingHyp *Term // negated characteristic predicate of a listed known finding
 	retried bool
 }
@@ -67,6 +71,9 @@ type Exec struct {
 	// per-function run
 	cur         *funcRun
 	MaxPaths    int
+	GenBudgetS  int // wall-clock budget for the VC generation of one function (0 = none)
+	MaxObls     int
+	MaxHeapMB   int
 	MaxUnroll   int
 	MaxInline   int
 	OverflowChk bool
@@ -92,6 +99,7 @@ type funcRun struct {
 	allocObjs map[string]*Object
 	strLens   map[Key]int64
 	ensuresAnteReached map[string]bool
+	started time.Time
 }
 
 type unsupportedErr struct{ msg string }
@@ -105,7 +113,7 @@ func NewExec(prog *ssa.Program, module string, spec *SpecDB, contracts map[strin
 		Prog: prog, ModulePath: module, Spec: spec, Contracts: contracts,
 		typeIDs: map[string]int{}, typeByID: map[int]types.Type{}, namedCache: map[string]types.Type{},
 		strLits: map[string]*Term{}, FuncByKey: map[string]*ssa.Function{},
-		MaxPaths: 20000, MaxUnroll: 40, MaxInline: 6, OverflowChk: true, Merge: true,
+		GenBudgetS: 120, MaxObls: 8000, MaxHeapMB: 5000, MaxPaths: 20000, MaxUnroll: 40, MaxInline: 6, OverflowChk: true, Merge: true,
 	}
 	ex.Prelude = &Prelude{DB: spec, Defs: map[string]*DefFun{}, StrLits: map[string]string{}, BoxFacts: map[string][]*Term{}}
 	return ex
@@ -241,6 +249,7 @@ type State struct {
 }
 
 func (st *State) clone() *State {
+	checkAbort()
 	n := &State{
 		pc: append([]*Term(nil), st.pc...),
 		mem: map[*Object]Value{}, heaps: map[string]*Term{}, alloc: st.alloc,
@@ -292,10 +301,20 @@ func (st *State) clone() *State {
 	return n
 }
 
+// abortFlag is set by the memory watchdog; the executor checks it at cheap, frequent points.
+var abortFlag atomic.Int32
+
+func checkAbort() {
+	if abortFlag.Load() != 0 {
+		panic(unsupportedErr{"VC generation exceeded the memory budget (path explosion)"})
+	}
+}
+
 func (st *State) assume(t *Term) {
 	if t == nil || t.IsTrue() {
 		return
 	}
+	checkAbort()
 	if t.Op == "and" {
 		for _, a := range t.Args {
 			st.assume(a)
@@ -416,6 +435,47 @@ func (ex *Exec) oblige(st *State, class, name string, goal *Term, pos token.Pos,
 		ex.cur.obls = append(ex.cur.obls, &Obligation{Func: ex.cur.key, Name: name, Class: class, Goal: goal, Status: "unsat", Solver: "simplifier", Pos: ex.posString(pos), Detail: detail})
 		return
 	}
+	// a conjunctive goal is discharged conjunct by conjunct (smaller, more stable queries)
+	if class == "ensures" || class == "requires" || class == "loop.preserve" || class == "loop.entry" {
+		if parts := splitGoal(goal); len(parts) > 1 && len(parts) <= 96 {
+			for _, g := range parts {
+				ex.oblige1(st, class, name, g, pos, detail)
+			}
+			return
+		}
+	}
+	ex.oblige1(st, class, name, goal, pos, detail)
+}
+
+// splitGoal: top-level conjuncts of a goal, also under an implication.
+func splitGoal(t *Term) []*Term {
+	switch t.Op {
+	case "and":
+		var out []*Term
+		for _, a := range t.Args {
+			out = append(out, splitGoal(a)...)
+		}
+		return out
+	case "=>":
+		if len(t.Args) == 2 {
+			cs := splitGoal(t.Args[1])
+			if len(cs) > 1 {
+				out := make([]*Term, len(cs))
+				for i, c := range cs {
+					out[i] = Implies(t.Args[0], c)
+				}
+				return out
+			}
+		}
+	}
+	return []*Term{t}
+}
+
+func (ex *Exec) oblige1(st *State, class, name string, goal *Term, pos token.Pos, detail string) {
+	if goal.IsTrue() {
+		ex.cur.obls = append(ex.cur.obls, &Obligation{Func: ex.cur.key, Name: name, Class: class, Goal: goal, Status: "unsat", Solver: "simplifier", Pos: ex.posString(pos), Detail: detail})
+		return
+	}
 	via := ""
 	if len(st.frames) > 1 {
 		via = ex.FuncKey(st.top().fn)
@@ -428,6 +488,16 @@ func (ex *Exec) oblige(st *State, class, name string, goal *Term, pos token.Pos,
 		o.FindingHyp = False
 		if f.whenExpr != nil {
 			o.FindingHyp = Not(ex.evalBool(st, f.whenExpr, ex.contractEnv(st, nil), &Clause{File: "known_findings.txt"}))
+		}
+	}
+	if ct := ex.cur.contract; ct != nil && ct.Attrs["opaque"] != "" {
+		for _, p := range strings.Split(ct.Attrs["opaque"], ",") {
+			o.Opaque = append(o.Opaque, strings.TrimSpace(p))
+		}
+	}
+	if ct := ex.cur.contract; ct != nil && ct.Attrs["noaxioms"] != "" {
+		for _, p := range strings.Split(ct.Attrs["noaxioms"], ",") {
+			o.NoAxioms = append(o.NoAxioms, strings.TrimSpace(p))
 		}
 	}
 	ex.cur.obls = append(ex.cur.obls, o)
